@@ -231,9 +231,14 @@ func canonAttrs(n *html.Node, o Options) string {
 }
 
 func canonViewport(s string) string {
-	s = strings.ReplaceAll(s, " ", "")
+	// the viewport algorithm separates properties by commas, semicolons and whitespace, and allows whitespace around =
+	for _, eq := range []string{" =", "= "} {
+		for strings.Contains(s, eq) {
+			s = strings.ReplaceAll(s, eq, "=")
+		}
+	}
+	parts := strings.FieldsFunc(s, func(r rune) bool { return r == ',' || r == ';' || r == ' ' || r == '\t' || r == '\n' || r == '\r' || r == '\f' })
 	// numbers: 1.0 == 1
-	parts := strings.Split(s, ",")
 	for i, p := range parts {
 		if j := strings.IndexByte(p, '='); j >= 0 {
 			v := p[j+1:]
